@@ -602,9 +602,48 @@ def check_wrapper_op(acc, grp, op, kind, ch):
     acc.nontriv_fast(("wrapper", kind, repr(op), tuple(grp.gens)))
 
 
+def three_qubit_shard(acc, first, L):
+    """3-qubit tableaux reached by gate words from |000> and |101> (many destabilizer structures), then every removal / partial trace /
+    swap / insertion checked once against R2; plus independence of copies (a tableau built from another must not share its arrays)."""
+    from graphiq.backends.stabilizer.clifford_tableau import CliffordTableau
+    gates = [("g1", g, q) for g in ("hadamard", "phase") for q in range(3)] + [("g2", "cnot", a, b) for a, b in itertools.permutations(range(3), 2)]
+    seen = set()
+    for start in ([], [("g1", "x", 0), ("g1", "x", 2)]):
+        for n in range(0, L):
+            for w in itertools.product(gates, repeat=n):
+                word = list(start) + [gates[first]] + list(w)
+                t = CliffordTableau(3)
+                for op in word:
+                    t, _ = real_step(t, op)
+                b = blob_of(t)
+                if b in seen:
+                    continue
+                seen.add(b)
+                for op in menu(3):
+                    if op[0] in ("remove", "ptrace") or (op[0] == "g2" and op[1] == "swap") or op[0] in ("insert", "mz", "reset"):
+                        if op[-1] == "probabilistic":
+                            for ch, _ in explore(lambda ch, op=op: step_and_check(acc, b, op, ch), max_exec=16):
+                                acc.evaluations += 1
+                        else:
+                            acc.evaluations += 1
+                            step_and_check(acc, b, op)
+                # copies are independent objects
+                src = tab_of(b)
+                for how, cp in (("CliffordTableau(t)", CliffordTableau(src)), ("t.copy()", src.copy())):
+                    acc.evaluations += 1
+                    cp, _ = real_step(cp, ("g1", "hadamard", 0))
+                    cp, _ = real_step(cp, ("g2", "cnot", 0, 1))
+                    if blob_of(src) != b:
+                        acc.violation("aliasing", how, "copy-shares-state-with-its-source", {"state": describe(b), "op": ["copy-then-gate"]}, "source unchanged", describe(blob_of(src)))
+                        break
+    return len(seen)
+
+
 def shards(tier):
     """large-n part and wrapper part (the BFS part is driven by run())."""
     out = []
+    for g in range(12):
+        out.append({"three": True, "first": g, "L": 3 if tier == "quick" else 4})
     for a in range(0, 60, 6):
         out.append({"wrappers": True, "lo": a, "hi": a + 6})
     for n in ([50] if tier == "quick" else [50, 200]):
@@ -617,6 +656,10 @@ def shards(tier):
 
 
 def run_shard(shard, tier, acc):
+    if shard.get("three"):
+        k = three_qubit_shard(acc, shard["first"], shard["L"])
+        acc.counters["three_qubit_tableaux"] += k
+        return
     if shard.get("wrappers"):
         from ..ref import spaces
         st = spaces.stabilizer_states(2)
